@@ -30,6 +30,44 @@ for dirpath, dirnames, filenames in os.walk(os.path.join(ROOT, PKG)):
         first_defs = {}
         idents = {}
         returns = {}
+        expanded = {}
+
+        def expanded_defs_of(fn_node):
+            """text of the (sole) definition of each single-definition local, with the other
+            single-definition locals expanded (a naming-independent signature of the value)"""
+            stores = {}
+            for n in ast.walk(fn_node):
+                if isinstance(n, ast.Name) and isinstance(n.ctx, (ast.Store, ast.Del)):
+                    stores[n.id] = stores.get(n.id, 0) + 1
+            defs = {}
+            for n in ast.walk(fn_node):
+                if isinstance(n, ast.Assign) and len(n.targets) == 1:
+                    t = n.targets[0]
+                    if isinstance(t, ast.Name) and stores.get(t.id) == 1:
+                        defs[t.id] = n.value
+                    elif isinstance(t, (ast.Tuple, ast.List)) and isinstance(n.value, (ast.Tuple, ast.List)) and len(t.elts) == len(n.value.elts):
+                        for a, b in zip(t.elts, n.value.elts):
+                            if isinstance(a, ast.Name) and stores.get(a.id) == 1:
+                                defs[a.id] = b
+
+            def expand(e, depth):
+                if depth <= 0:
+                    return e
+                class X(ast.NodeTransformer):
+                    def visit_Name(self, node):
+                        if isinstance(node.ctx, ast.Load) and node.id in defs:
+                            import copy
+                            return expand(copy.deepcopy(defs[node.id]), depth - 1)
+                        return node
+                import copy
+                return X().visit(copy.deepcopy(e))
+            out = {}
+            for k, v in defs.items():
+                try:
+                    out[k] = ast.unparse(expand(v, 4))
+                except RecursionError:
+                    pass
+            return out
 
         def returns_of(fn_node):
             """element texts of the returned tuple when every return is a tuple of one shape"""
@@ -109,6 +147,7 @@ for dirpath, dirnames, filenames in os.walk(os.path.join(ROOT, PKG)):
                 funcs[key_of(node)] = locals_of(node)
                 first_defs[key_of(node)] = first_defs_of(node)
                 idents[key_of(node)] = idents_of(node)
+                expanded[key_of(node)] = expanded_defs_of(node)
                 if returns_of(node):
                     returns[key_of(node)] = returns_of(node)
                 if attr_stored_of(node):
@@ -120,6 +159,7 @@ for dirpath, dirnames, filenames in os.walk(os.path.join(ROOT, PKG)):
                         funcs[f"{node.name}.{key_of(item)}"] = locals_of(item)
                         first_defs[f"{node.name}.{key_of(item)}"] = first_defs_of(item)
                         idents[f"{node.name}.{key_of(item)}"] = idents_of(item)
+                        expanded[f"{node.name}.{key_of(item)}"] = expanded_defs_of(item)
                         if returns_of(item):
                             returns[f"{node.name}.{key_of(item)}"] = returns_of(item)
                         if attr_stored_of(item):
@@ -130,7 +170,7 @@ for dirpath, dirnames, filenames in os.walk(os.path.join(ROOT, PKG)):
                     for n in ast.walk(t):
                         if isinstance(n, ast.Name):
                             globs.add(n.id)
-        out[mod] = {"functions": funcs, "globals": sorted(globs), "attr_stored": attr_stored, "first_defs": first_defs, "idents": idents, "returns": returns}
+        out[mod] = {"functions": funcs, "globals": sorted(globs), "attr_stored": attr_stored, "first_defs": first_defs, "idents": idents, "returns": returns, "expanded_defs": expanded}
 dst = os.path.join(os.path.dirname(os.path.dirname(os.path.abspath(__file__))), "sa", "vocab.json")
 with open(dst, "w") as fh:
     json.dump(out, fh, indent=0, sort_keys=True)
